@@ -65,6 +65,10 @@ def make_set(rng, must_have: list, size=None):
         seen.add(material(c))
         jwks.append(c)
     rng.shuffle(jwks)
+    # members that other specifications define for JWKs (OpenID Federation iat / nbf / exp, x5t ...) or nobody does: a key is chosen by its kid, whatever else it carries
+    for i in range(len(jwks)):
+        if rng.random() < 0.35:
+            jwks[i] = {**jwks[i], **rng.choice([{"exp": 1}, {"nbf": 2 ** 40}, {"exp": 10, "iat": 5, "nbf": 7}, {"revoked": True}, {"exp": 2 ** 40, "nbf": 1}, {"status": "retired"}, {"ext": False}])}
     explicit = rng.random() < 0.6
     out = []
     for i, jw in enumerate(jwks):
@@ -245,6 +249,21 @@ def consume_variants(mon, ctx, rng, token, jwks, pubset, target, a, case):
             ctx.count("consume_ops")
             if not v.ok:
                 ctx.violation(f"single-key-set-rejects-kidless:{v.key}", f"token without kid rejected by a single-key set: {v.exc!r}", {**case, "token": stripped})
+        # ... but a token that NAMES a kid the only key does not have is not: an empty name, an unknown one, a near miss
+        for name, kid in [("unknown-kid", "ghost"), ("empty-kid", "")] + near_kids(jwks, target):
+            t2 = relabel(token, kid, jwks[target], a)
+            if t2 is None:
+                continue
+            v = consume(j, t2, pubset, a)
+            ctx.ev()
+            ctx.count("consume_ops")
+            ctx.count("single_key_set_named_kid")
+            ctx.nontrivial(("consume-single", name, t2 if isinstance(t2, str) else json.dumps(t2, sort_keys=True)))
+            c2 = {**case, "token": t2, "variant": name}
+            if v.ok:
+                ctx.violation(f"consume-accepts:{name}:single-key-set", f"a token labelled {name} ({kid!r}) was accepted against a set whose only key is {kid_of(jwks[target])!r}", c2)
+            elif v.etype != "InvalidKeyIdError":
+                ctx.violation(f"{name.split(':')[0]}-wrong-error:{v.key}", f"{name} against a single-key set reported as {v.exc!r}, not InvalidKeyIdError", c2)
         return
     others = [i for i in range(len(jwks)) if i != target]
     wrong = rng.choice(others)
